@@ -536,9 +536,26 @@ func knownDigestValidated(arg ssa.Value, at ssa.Instruction) bool {
 	if !ok || fld != "Digest" {
 		return false
 	}
-	al, ok := facts.Resolve(b).(*ssa.Alloc)
+	var reqV ssa.Value = facts.Resolve(b)
+	al, ok := reqV.(*ssa.Alloc)
 	if !ok {
-		return false
+		// the request literal is built by a small private constructor (`blobGetRequest(repo, digest)`)
+		call, isCall := reqV.(*ssa.Call)
+		if !isCall {
+			return false
+		}
+		h := call.Call.StaticCallee()
+		if h == nil || h.Blocks == nil || len(privateCallSites(h)) == 0 {
+			return false
+		}
+		rets := returnsOf(h)
+		if len(rets) != 1 || len(rets[0].Results) != 1 {
+			return false
+		}
+		al, ok = facts.Resolve(rets[0].Results[0]).(*ssa.Alloc)
+		if !ok {
+			return false
+		}
 	}
 	kv, has := blobLiteralFieldOf(al, "Kind")
 	if !has {
@@ -557,7 +574,7 @@ func knownDigestValidated(arg ssa.Value, at ssa.Instruction) bool {
 		}
 		uses := false
 		for _, a := range ci.Common().Args {
-			if facts.Resolve(a) == ssa.Value(al) {
+			if facts.Resolve(a) == reqV {
 				uses = true
 			}
 		}
